@@ -32,7 +32,7 @@ try:
             shutil.copytree(src, wt + '/tests/' + f, dirs_exist_ok=True)
     # demos that `include_str!` their inputs under the names they had in the author's worktree
     for inc in re.findall(r'include_str!\("([^"]+)"\)', open(os.path.join(seed, 'demo.rs')).read()):
-        rest = re.sub(r'^seed_demo_[AB]_?', '', inc)
+        rest = re.sub(r'^seed_demo_[AB]_?', '', inc).lstrip('/')
         cands = [rest, 'input_' + rest, re.sub(r'^input_', '', rest), rest.replace('_', '/'), 'input.pyxis']
         if rest in ('', '.pyxis'):
             cands = ['input.pyxis']
